@@ -116,7 +116,7 @@ func runDialog(dir string, c *Case) Outcome {
 		"code/router":      strings.Join(c.Target, "\n") + "\n",
 		"code/router.info": `{"model":"IOS","name_list":["router"],"ip_list":["10.1.13.33"]}` + "\n",
 		"credentials":      "* admin secret\n",
-		".netspoc-approve": fmt.Sprintf("basedir = %s\ncheckbanner = NetSPoC\nsystemuser = admin\ntimeout = %d\nlogin_timeout = %d\n", dir, map[bool]int{false: 2, true: 6}[c.Patient], map[bool]int{false: 5, true: 20}[c.Patient]),
+		".netspoc-approve": fmt.Sprintf("basedir = %s\ncheckbanner = NetSPoC\nsystemuser = admin\ntimeout = %d\nlogin_timeout = %d\n", dir, map[bool]int{false: 2, true: 6}[c.Patient], map[bool]int{false: 3, true: 20}[c.Patient]),
 	})
 	replies := stdReplies()
 	replies["sh run"] = []string{"sh run\n" + strings.Join(c.Device, "\n") + "\n" + prompt}
